@@ -23,7 +23,7 @@ REAL_REPLAY = False
 STUBS = ['LLE.solve_lle_liquid_mol: fresh split 0 <= l_i <= mol_i', 'SLE._solve_x: fresh solubility in [0, 1]',
          'separations/binary phase_fraction used on the reuse path: fresh phase fraction']
 ASSUMPTIONS = ['LLE: feeds from two concrete compositions per chemical count, the splits returned by the solver stub, T1, T2 and the second composition symbolic; SLE: flows symbolic > 0, T in (250, 450)', 'tolerances are the library defaults read from the LLE object']
-OUTSIDE = ['equal activities (x*gamma) in both liquids', 'agreement between solver methods', 'scaling with the feed', 'more than 3 chemicals']
+OUTSIDE = ['that the float iteration reaches a fixed point (equal activities are decided AT a fixed point of the inner loop)', 'agreement between solver methods', 'scaling with the feed', 'more than 3 chemicals']
 BOUNDS = {'quick': dict(lle_chemicals='2-3', calls=2), 'thorough': dict(lle_chemicals='2-3', calls=2)}
 _fx = c03._fx
 
